@@ -107,8 +107,13 @@ func (a *area) run(line string) string {
 		a.tree.Insert(hx.Atoi(f[1]), hx.Atoi(f[2]))
 		return "c=" + strconv.Itoa(a.calls)
 	case f[0] == "rem" && len(f) == 2:
+		before := a.tree.Count()
 		a.tree.Remove(hx.Atoi(f[1]))
-		return "c=" + strconv.Itoa(a.calls)
+		what := "absent"
+		if a.tree.Count() != before {
+			what = "removed"
+		}
+		return what + c()
 	case f[0] == "get" && len(f) == 2:
 		v, ok := a.tree.Get(hx.Atoi(f[1]))
 		return optStr(v, ok) + c()
